@@ -1,5 +1,6 @@
 import SJ.Props.C01
 import SJ.Props.C01Iff
+import SJ.Props.C01Range
 #print axioms SJ.Props.C01.c01_complete_value
 #print axioms SJ.Props.C01.c01_complete_sideConditions
 #print axioms SJ.Props.C01.c01_complete_value_ap
@@ -10,3 +11,9 @@ import SJ.Props.C01Iff
 #print axioms SJ.Props.C01Iff.c01_accepts_iff
 #print axioms SJ.Props.C01Iff.c02_value_is_canon
 #print axioms SJ.Props.C01Iff.c19_skip_language
+#print axioms SJ.Props.C01Range.c01_range_fr
+#print axioms SJ.Props.C01Range.c01_accepts_iff_fr
+#print axioms SJ.Props.C01Range.c01_range_default_band
+#print axioms SJ.Props.C01Range.c01_default_rejects_finite
+#print axioms SJ.Props.C01Range.c01_default_accepts_infinite
+#print axioms SJ.Props.C01Range.c01_range_oracle
